@@ -1,0 +1,7 @@
+//go:build !verif
+
+package api
+
+func verifNop() {}
+
+func verifTrack(name string, opID []byte) func() { return verifNop }
